@@ -77,9 +77,9 @@ func (b *secBarrier) demote(a *anyCache, k int) bool {
 }
 
 type c14Script struct {
-	Name   string `json:"scenario"`
-	Kind   string `json:"cache"`
-	Steps  []string `json:"steps"`
+	Name  string   `json:"scenario"`
+	Kind  string   `json:"cache"`
+	Steps []string `json:"steps"`
 }
 
 func c14Scripted(r *Run, idx int) {
